@@ -1,6 +1,6 @@
 #!/bin/bash
 # run every claimed check (quick tier by default) and summarise
-cd /verif
+cd "$(dirname "$0")/.."
 tier=${1:-quick}
 for p in $(python3 -c "import json;print(' '.join(c['property_id'] for c in json.load(open('MANIFEST.json'))['checks']))"); do
   ./check $p --tier $tier 2>&1 | grep -E "^C[0-9]+ (ok|FAIL)|VIOLATION" 
